@@ -34,7 +34,7 @@ def gen(xkind, dup, nested, reexp, origin_all, local_def, consumer, cycle, zope=
                 s += "    class N:\n        def n(self): pass\n"
             return s
         # a function whose default value names a sibling (its linker is created while the module is built)
-        return f"def X(a=sibling):\n    '''X {tag}, see L{{sibling}}'''\n"
+        return f"def X(a: LIMIT = sibling):\n    '''X {tag}, see L{{sibling}}'''\n"
 
     def defother(tag):
         if xkind == "class":
@@ -60,6 +60,9 @@ def gen(xkind, dup, nested, reexp, origin_all, local_def, consumer, cycle, zope=
         impl += "__all__ = ['X', 'Y']\n"
     impl += "class Y:\n    '''Y'''\n"
     impl += "def sibling():\n    '''sibling'''\n"
+    # a module-level variable named in a class header (subscript of a base) and in an annotation: links from a class page / from
+    # the page a function is moved to, to an anchor on THIS module's page
+    impl += "from typing import Generic\nLIMIT = 3\n'''LIMIT doc'''\nclass Holder(Generic[LIMIT]):\n    '''Holder of L{LIMIT}'''\n"
     deco = "@implementer(IX)\n" if (zope and xkind == "class") else ""
     if dup == "ifelse":
         impl += "if 1:\n" + "".join("    " + ln + "\n" for ln in (deco + defx(1)).splitlines())
